@@ -98,6 +98,9 @@ structure Obj where
   referenceable version changed since the reference was written), "other" = another group /
   kind.  The claim reconciler looks its XR up BY NAME: nothing below reads this field. -/
   refVer : String := ""
+  /-- usage: `spec.by` names the using resource by a `resourceSelector` that has NOT been
+  resolved (no `resourceRef` yet); its labels select the resource `ref` of kind `refKind` -/
+  sel : Bool := false
   deriving DecidableEq, Repr
 
 structure St where
@@ -166,6 +169,8 @@ inductive Req where
   | get (k : Key)
   | list (kd : Kind)
   | listUsagesOf (kd : Kind) (n : String)
+  /-- `apiSelectorResolver.resolveSelector`: List of kind `kd` by the labels that select `n` -/
+  | listSel (kd : Kind) (n : String)
   | setStatus (k : Key) (rv : Nat) (conds : List (String × String))
   | removeFin (k : Key) (rv : Nat) (fin : String)
   | delete (k : Key) (fg : Bool)
@@ -199,6 +204,7 @@ def exec (s : St) : Req → St × Resp
   | .get k => (s, match find s k with | some o => .obj o | none => .notFound)
   | .list kd => (s, .list (ofKind s kd))
   | .listUsagesOf kd n => (s, .list ((ofKind s .usage).filter (fun u => u.of = n ∧ u.ofKind = kd)))
+  | .listSel kd n => (s, .list ((ofKind s kd).filter (fun o => o.key.name = n)))
   | .setStatus k rv conds => withObj s k rv (fun o => { o with conds := conds })
   | .removeFin k rv fin => withObj s k rv (fun o => { o with fins := o.fins.filter (· ≠ fin) })
   | .delete k fg =>
@@ -212,12 +218,12 @@ def exec (s : St) : Req → St × Resp
   | .cacheDelete _ => (s, .ok)
 
 def Req.isWrite : Req → Bool
-  | .get _ | .list _ | .listUsagesOf _ _ | .stop _ | .cacheDelete _ => false
+  | .get _ | .list _ | .listUsagesOf _ _ | .listSel _ _ | .stop _ | .cacheDelete _ => false
   | _ => true
 
 /-- reads: the calls an informer cache can answer -/
 def Req.isRead : Req → Bool
-  | .get _ | .list _ | .listUsagesOf _ _ => true
+  | .get _ | .list _ | .listUsagesOf _ _ | .listSel _ _ => true
   | _ => false
 
 /-- reply seen by the controller when the call was not applied -/
@@ -273,7 +279,7 @@ inductive Edit where
 def Edit.app (e : Edit) (o : Obj) : Obj :=
   match e with
   | .flip => { o with flag := !o.flag }
-  | .ref v => { o with ref := v, refVer := "" }
+  | .ref v => { o with ref := v, refVer := "", sel := false }
 
 /-- a third party edits an object (a changed object gets a fresh resourceVersion) -/
 def envEdit (s : St) (k : Key) (e : Edit) : St :=
@@ -646,7 +652,17 @@ def usageRec (n : String) : P :=
   let k : Key := ⟨.usage, n⟩
   .call (.get k) fun
     | .obj u =>
-      if !u.del then .ret .oos
+      -- `r.usage.resolveSelectors` (before the WasDeleted test): `spec.of` is always resolved
+      -- here; an unresolved `spec.by` selector is resolved by a List — an error or an empty
+      -- list ends the reconcile with an error, whatever the Usage's state
+      if u.sel && u.ref != "" then
+        .call (.listSel u.refKind u.ref) fun
+          | .list [] => .ret .err
+          -- resolved: the reference is persisted (Update) and the reconcile goes on with the
+          -- updated copy: not modelled (`Res.oos`, see props/C08.json)
+          | .list _ => .ret .oos
+          | _ => .ret .err
+      else if !u.del then .ret .oos
       else if u.ref ≠ "" ∧ u.flag then
         .call (.get ⟨u.refKind, u.ref⟩) fun
           | .obj _ => .ret .requeue
@@ -723,6 +739,7 @@ def liveActs (s : St) : Ctl → String → List Live
     match find s k with
     | none => []
     | some u =>
+      if u.sel then [] else   -- selector resolution first: not mirrored (the harness never runs it)
       -- AddFinalizer, (details annotation), Get used (error ends the reconcile), label it,
       -- Get using (error ends the reconcile), owner reference, status
       .addFin k c08UsageFinalizer ::
@@ -1119,6 +1136,7 @@ inductive SkStep where
 
 def Req.tag : Req → String
   | .get _ => "get" | .list _ => "list" | .listUsagesOf _ _ => "listUsagesOf"
+  | .listSel _ _ => "listSel"
   | .setStatus _ _ _ => "setStatus" | .removeFin _ _ _ => "removeFin" | .delete _ _ => "delete"
   | .deleteAll _ => "deleteAll" | .lockRemove _ _ => "lockRemove" | .unlabel _ _ => "unlabel"
   | .stop _ => "stop" | .cacheDelete _ => "cacheDelete"
@@ -1291,8 +1309,8 @@ def skelResolve : List (String × SkStep) := [
 Paths: 0 = composed Usage, using resource gone, used resource exists, last Usage of it;
 1 = using resource still exists. -/
 def skelUsage : List (String × SkStep) := [
-  ("client.Get", .req "get" [0, 1]),
-  ("usage.resolveSelectors", .no "no call when spec.of / spec.by carry resourceRefs (the harness's Usages do); selector resolution is not exercised"),
+  ("client.Get", .req "get" [0, 1, 2]),
+  ("usage.resolveSelectors", .req "listSel" [2]),         -- skelSelResolve: only an unresolved spec.by selector makes a call
   ("meta.WasDeleted", .guard "u.del (else Res.oos; the live branch is Act.live)"),
   ("client.Get", .req "get" [0, 1]),                       -- using resource (only when composed and spec.by set)
   ("client.Get", .req "get" [0]),                          -- used resource
@@ -1307,6 +1325,17 @@ def skelUsage : List (String × SkStep) := [
   ("client.Get", .no "live branch: read of the using resource"),
   ("client.Update", .live "usageOwn: owner reference to the using resource"),
   ("client.Status.Update", .no "live branch: status only")]
+
+/-- `apiSelectorResolver.resolveSelectors` ↔ the `u.sel` branch of `usageRec` -/
+def skelSelResolve : List (String × SkStep) := [
+  ("resolveSelector", .no "spec.of: always resolved in the harness's Usages (the used resource must be known)"),
+  ("client.Update", .no "spec.of resolved: see above"),
+  ("resolveSelector", .req "listSel" [2]),                -- skelSelResolveOne
+  ("client.Update", .no "the resolved spec.by reference is persisted and the reconcile goes on with the updated copy: Res.oos")]
+
+/-- `apiSelectorResolver.resolveSelector` ↔ `Req.listSel` -/
+def skelSelResolveOne : List (String × SkStep) := [
+  ("client.List", .req "listSel" [2])]
 
 /-- `engine.ControllerEngine.Stop` ↔ `Req.stop`: a failing watch stop is the `.err` reply
 (nothing dropped), otherwise the controller's context is cancelled and it leaves the
@@ -1359,7 +1388,8 @@ open Xp.Gen in
 def usagePaths : List (List Resp) :=
   let u := { pathObj ⟨.usage, "n"⟩ [c08UsageFinalizer] with flag := true }
   let used := pathObj ⟨.res, "o"⟩ []
-  [[.obj u, .notFound, .obj used, .list [u], .obj used, .obj u], [.obj u, .obj used]]
+  [[.obj u, .notFound, .obj used, .list [u], .obj used, .obj u], [.obj u, .obj used],
+   [.obj { u with sel := true }, .list []]]
 
 /-- the request tags the program issues along designated path `i` -/
 def pathTags (p : P) (paths : List (List Resp)) (i : Nat) : List String :=
